@@ -1050,7 +1050,13 @@ class OdeSystem(object):
                         self.counter -= 1
 
                         sol_tuple = (self.__sol, prev_time, next_time)
-                        active_events, roots, end_int, evs = handle_events(sol_tuple, events, self.constants, direction, is_terminal, (requires_dstate,))
+                        try:
+                            active_events, roots, end_int, evs = handle_events(sol_tuple, events, self.constants, direction, is_terminal, (requires_dstate,))
+                        except BaseException:
+                            # the step has not been recorded yet: do not leave its interpolant behind in the dense output
+                            for __unrecorded_interp in (__y_interp if isinstance(__y_interp, list) else [__y_interp]):
+                                self.__sol.remove_interpolant(self.__sol.y_interpolants.index(__unrecorded_interp))
+                            raise
 
                         if self.counter + len(roots) + 1 >= len(self.__y):
                             total_steps = self.__alloc_space_steps(tf - dTime) + 1 + len(roots)
